@@ -341,7 +341,7 @@ def worlds_for(ctx, types, ids, doc, root, limit, nrandom):
 
 
 def gen_cases(ctx):
-    limit, nrandom = (300, 80) if ctx.tier == "quick" else (20000, 3000)
+    limit, nrandom = (300, 80) if ctx.tier == "quick" else (3000, 400)
     cases, stats = [], {"documents": 0, "exhaustive_documents": 0, "max_sites": 0, "limit": limit}
     for schema, types, ids, docs in ((SCHEMA, TYPES, OBJ_ID, DOCS), (COV_SCHEMA, COV_TYPES, COV_OBJ_ID, COV_DOCS)):
         for entry in docs:
@@ -355,7 +355,7 @@ def gen_cases(ctx):
                 for w in ws:
                     cases.append((schema, doc, v, w))
     # structured random documents
-    nrand_docs = 60 if ctx.tier == "quick" else 1500
+    nrand_docs = 60 if ctx.tier == "quick" else 300
     seen = set()
     for i in range(nrand_docs):
         root = "Mutation" if i % 7 == 0 else "Query"
